@@ -124,6 +124,7 @@ func (x *Exec) extraChecks(plan *Plan, only *regexp.Regexp) {
 	x.tableChecks(plan, only)
 	if only == nil {
 		x.immutableFieldChecks()
+		x.objInvChecks()
 	}
 	for _, name := range plan.Lemmas {
 		if only != nil && !only.MatchString(name) {
@@ -617,4 +618,246 @@ func (x *Exec) immutableFieldChecks() {
 		short := strings.TrimPrefix(key, modulePath+"/")
 		x.checks = append(x.checks, &Check{Name: "immutable-field/" + short, Goal: mkBool(!bad), At: nil, Fn: "immutable " + short, Detail: "field is only written while its object is constructed; " + why})
 	}
+}
+
+// ---------------------------------------------------------------------------
+// Object invariants (objinv T(h) by Ctor over fields: expr)
+//
+// The invariant may be assumed for every *T the verified code receives because
+//   (1) every T is allocated in Ctor only (whole-module scan: objinv/<T>/sole-constructor),
+//   (2) Ctor establishes it on what it returns (an ensures obligation of Ctor),
+//   (3) it reads only fields that are never written after construction (objinv/<T>/fields-immutable,
+//       on top of the immutable-field/* scans).
+
+func (oi *ObjInv) key() string { return oi.Pkg + "." + oi.Type }
+
+func (x *Exec) objInvNamed(t types.Type) *ObjInv {
+	n, ok := t.(*types.Named)
+	if !ok || n.Obj().Pkg() == nil {
+		return nil
+	}
+	return x.objInvs[n.Obj().Pkg().Path()+"."+n.Obj().Name()]
+}
+
+// objInvEntry assumes the invariant of every pointer parameter whose type has one
+// (not in the constructor itself).
+func (x *Exec) objInvEntry(st *State, f *ssa.Function, args []Val) {
+	for i, p := range f.Params {
+		pt, ok := p.Type().Underlying().(*types.Pointer)
+		if !ok {
+			continue
+		}
+		oi := x.objInvNamed(pt.Elem())
+		if oi == nil || f.Pkg == nil || f.Pkg.Pkg.Path() != oi.Pkg {
+			continue
+		}
+		if f.Name() == oi.Ctor {
+			continue
+		}
+		ctx := &EvalCtx{x: x, st: st, old: st, env: map[string]SV{oi.Var: {t: args[i].T, typ: p.Type()}}, pkg: x.typesPkg(oi.Pkg), sf: oi.SF}
+		g := ctx.boolOf(oi.E)
+		st.assume(implies(not(eq(args[i].T, mkInt(0))), g))
+	}
+}
+
+// objInvCtor adds "the invariant holds on the result" to the constructor's postconditions.
+func (x *Exec) objInvCtor(f *ssa.Function, c *Contract) *Contract {
+	if f.Pkg == nil {
+		return c
+	}
+	for _, k := range sortedKeys(x.objInvs) {
+		oi := x.objInvs[k]
+		if oi.Pkg != f.Pkg.Pkg.Path() || oi.Ctor != f.Name() || oi.added {
+			continue
+		}
+		rs := f.Signature.Results()
+		for i := 0; i < rs.Len(); i++ {
+			rn := fmt.Sprintf("result%d", i)
+			if rs.Len() == 1 {
+				rn = "result"
+			}
+			var guard, obj string
+			switch u := rs.At(i).Type().Underlying().(type) {
+			case *types.Pointer:
+				if x.objInvNamed(u.Elem()) != oi {
+					continue
+				}
+				guard, obj = rn+" != nil", rn
+			case *types.Interface:
+				tn, _ := f.Pkg.Pkg.Scope().Lookup(oi.Type).(*types.TypeName)
+				if tn == nil || !types.Implements(types.NewPointer(tn.Type()), u) {
+					continue
+				}
+				guard = fmt.Sprintf("typeof(%s) == *%s && pl(%s) != 0", rn, oi.Type, rn)
+				obj = fmt.Sprintf("(%s.(*%s))", rn, oi.Type)
+			default:
+				continue
+			}
+			body := regexp.MustCompile(`\b`+regexp.QuoteMeta(oi.Var)+`\b`).ReplaceAllString(oi.Text, obj)
+			text := fmt.Sprintf("(%s) ==> (%s)", guard, body)
+			e, err := parseExpr(text)
+			if err != nil {
+				panic(specErr{fmt.Sprintf("objinv %s: %v", oi.Type, err)})
+			}
+			nc := *c
+			nc.Ensures = append(append([]Clause{}, c.Ensures...), Clause{E: e, Text: text, Name: "objinv-" + oi.Type + "-established", Line: oi.Line})
+			c = &nc
+			x.contracts[f.String()] = c
+			oi.added = true
+		}
+	}
+	return c
+}
+
+func (x *Exec) objInvChecks() {
+	x.ensureImmutableHeaps()
+	for _, k := range sortedKeys(x.objInvs) {
+		oi := x.objInvs[k]
+		short := strings.TrimPrefix(k, modulePath+"/")
+		// (3) fields
+		okFields := true
+		why := ""
+		declared := map[string]bool{}
+		for _, f := range oi.Fields {
+			key := oi.Pkg + "." + f
+			declared[f[strings.LastIndexByte(f, '.')+1:]] = true
+			if !x.immutableFields[key] {
+				okFields, why = false, f+" is not declared immutable"
+			} else if w, bad := x.immutableViolations[key]; bad {
+				okFields, why = false, f+": "+w
+			}
+		}
+		for _, name := range selectorNames(oi.E) {
+			if !declared[name] {
+				okFields, why = false, "the invariant reads field "+name+" which is not listed after 'over'"
+			}
+		}
+		x.checks = append(x.checks, &Check{Name: "objinv/" + short + "/fields-immutable", Goal: mkBool(okFields), Fn: "objinv " + short, Detail: "the invariant reads only fields never written after construction; " + why})
+		// (1) sole constructor
+		sole, where := x.soleConstructor(oi)
+		x.checks = append(x.checks, &Check{Name: "objinv/" + short + "/sole-constructor", Goal: mkBool(sole), Fn: "objinv " + short, Detail: "every " + oi.Type + " is allocated in " + oi.Ctor + " only; " + where})
+	}
+}
+
+func selectorNames(e Expr) []string {
+	var out []string
+	var walk func(e Expr)
+	walk = func(e Expr) {
+		switch v := e.(type) {
+		case *ESel:
+			out = append(out, v.Name)
+			walk(v.X)
+		case *EUnary:
+			walk(v.X)
+		case *EBinary:
+			walk(v.X)
+			walk(v.Y)
+		case *ECall:
+			for _, a := range v.Args {
+				walk(a)
+			}
+		case *EIndex:
+			walk(v.X)
+			walk(v.I)
+		case *ESlice:
+			walk(v.X)
+			walk(v.Lo)
+			walk(v.Hi)
+		case *EAssert:
+			walk(v.X)
+		case *ECond:
+			walk(v.C)
+			walk(v.A)
+			walk(v.B)
+		case *ESet:
+			for _, a := range v.Elems {
+				walk(a)
+			}
+		}
+	}
+	walk(e)
+	return out
+}
+
+// soleConstructor: no function other than the constructor allocates a value that is or contains (by value) the type.
+func (x *Exec) soleConstructor(oi *ObjInv) (bool, string) {
+	pkg := x.typesPkg(oi.Pkg)
+	if pkg == nil {
+		return false, "unknown package"
+	}
+	tn, ok := pkg.Scope().Lookup(oi.Type).(*types.TypeName)
+	if !ok {
+		return false, "unknown type"
+	}
+	target := tn.Type()
+	var contains func(t types.Type, depth int) bool
+	contains = func(t types.Type, depth int) bool {
+		if depth > 6 {
+			return false
+		}
+		if types.Identical(t, target) {
+			return true
+		}
+		switch u := t.Underlying().(type) {
+		case *types.Struct:
+			for i := 0; i < u.NumFields(); i++ {
+				if contains(u.Field(i).Type(), depth+1) {
+					return true
+				}
+			}
+		case *types.Array:
+			return contains(u.Elem(), depth+1)
+		}
+		return false
+	}
+	ok2, where := true, ""
+	seen := map[*ssa.Function]bool{}
+	var visit func(f *ssa.Function)
+	visit = func(f *ssa.Function) {
+		if f == nil || seen[f] {
+			return
+		}
+		seen[f] = true
+		isCtor := f.Pkg != nil && f.Pkg.Pkg.Path() == oi.Pkg && f.Name() == oi.Ctor
+		for _, b := range f.Blocks {
+			for _, ins := range b.Instrs {
+				var t types.Type
+				switch v := ins.(type) {
+				case *ssa.Alloc:
+					t = deref(v.Type())
+				case *ssa.MakeSlice:
+					t = v.Type().Underlying().(*types.Slice).Elem()
+				case *ssa.MakeMap:
+					t = v.Type().Underlying().(*types.Map).Elem()
+				case *ssa.MakeChan:
+					t = v.Type().Underlying().(*types.Chan).Elem()
+				}
+				if t != nil && contains(t, 0) && !isCtor {
+					ok2, where = false, "allocated in "+f.String()+" at "+x.pos(ins.Pos())
+				}
+			}
+		}
+		for _, a := range f.AnonFuncs {
+			visit(a)
+		}
+	}
+	for _, p := range x.prog.AllPackages() {
+		if !strings.HasPrefix(p.Pkg.Path(), modulePath) {
+			continue
+		}
+		for _, m := range p.Members {
+			switch v := m.(type) {
+			case *ssa.Function:
+				visit(v)
+			case *ssa.Type:
+				for _, t := range []types.Type{v.Type(), types.NewPointer(v.Type())} {
+					ms := x.prog.MethodSets.MethodSet(t)
+					for i := 0; i < ms.Len(); i++ {
+						visit(x.prog.MethodValue(ms.At(i)))
+					}
+				}
+			}
+		}
+	}
+	return ok2, where
 }
